@@ -24,15 +24,15 @@ pub fn case(ctx: &mut Ctx, cfg: &Cfg, data: &[u8], kind: &str, seed: u64) {
         if fl == 3 { last_full = Some((ipos, opos)); }
         if chosen.contains(&k) {
             ctx.count("prefixes_checked");
-            ctx.line(&format!("PFX id={} fmt={} kind={} in={} out={}", id, cfg.zlib as u8, fl, hex(&data[..ipos]), hex(&run.out[..opos])));
+            ctx.line(&format!("PFX id={} rp=FLUSH;seed={};inkey=full {} kind={} in={} out={} full={}", id, seed, cfg.describe(), fl, hex(&data[..ipos]), hex(&run.out[..opos]), hex(data)));
         }
     }
     if run.done {
         if let Some((ipos, opos)) = last_full {
             ctx.count("tails");
-            ctx.line(&format!("TAIL id={} fmt={} tail={} expect={}", id, cfg.zlib as u8, hex(&run.out[opos..]), hex(&data[ipos..])));
+            ctx.line(&format!("TAIL id={} rp=FLUSH;seed={};inkey=full {} tail={} expect={} full={}", id, seed, cfg.describe(), hex(&run.out[opos..]), hex(&data[ipos..]), hex(data)));
         }
-        ctx.line(&format!("ENC id={} checks=rt modes=- {} in={} comp={}", id, cfg.describe(), hex(data), hex(&run.out)));
+        ctx.line(&format!("ENC id={} rp=FLUSH;seed={} checks=rt modes=- {} in={} comp={}", id, seed, cfg.describe(), hex(data), hex(&run.out)));
     }
 }
 
@@ -63,7 +63,7 @@ fn nosync_then_sync(ctx: &mut Ctx, cfg: &Cfg, data: &[u8]) {
     match (a, b) {
         (Some(a), Some(b)) => {
             if a != b { ctx.violation(id, "nosync", format!("NoSync+Sync emitted {} bytes, Sync alone {} bytes, and they differ [{}]", a.len(), b.len(), cfg.describe()), format!("NOSYNC {} in={}", cfg.describe(), hex(data))); }
-            ctx.line(&format!("ENC id={} checks=rt modes=- {} in={} comp={}", id, cfg.describe(), hex(data), hex(&a)));
+            ctx.line(&format!("ENC id={} rp=NOSYNC checks=rt modes=- {} in={} comp={}", id, cfg.describe(), hex(data), hex(&a)));
         }
         _ => ctx.violation(id, "status", "unexpected status in NoSync/Sync sequence".into(), format!("NOSYNC {} in={}", cfg.describe(), hex(data))),
     }
